@@ -167,6 +167,10 @@ def _PyDict_NewPresized(n):
     return {}
 
 
+def _newdict():
+    return {}
+
+
 def memset(arr, v, n):
     for i in range(min(len(arr.d), n // sizeof(arr.t))):
         arr.d[i] = v
